@@ -116,6 +116,9 @@ def pp(e, mode="full", ctx=None):
         name, args, named = e.a
         parts = [name] + [f"{n}:{_atom(v, mode)}" for n, v in named.items()] + [_atom(a, mode) for a in args]
         return "(" + " ".join(parts) + ")"
+    if k == "pipecall":
+        name, args = e.a
+        return "(" + _atom(args[-1], mode) + " | " + " ".join([name] + [_atom(a, mode) for a in args[:-1]]) + ")"
     raise ValueError(k)
 
 
@@ -123,7 +126,7 @@ def _atom(e, mode):
     s = pp(e, mode)
     if e.k in ("col", "null", "bool") or (e.k == "lit" and e.a[0] >= 0):
         return s
-    if e.k in ("fn", "call", "in") and s.startswith("("):
+    if e.k in ("fn", "call", "in", "pipecall") and s.startswith("("):
         return s
     return f"({s})"
 
